@@ -84,6 +84,10 @@ class Timer:
         self._task: Optional[asyncio.Task] = None
 
     def start(self):
+        # Never overwrite the handle of a running timer: the old task could no
+        # longer be cancelled and would still fire
+        self.cancel()
+
         self._task = asyncio.create_task(self.runner())
         self._task.add_done_callback(self._unset_task)
 
@@ -107,4 +111,6 @@ class Timer:
         self.start()
 
     def _unset_task(self, task: asyncio.Future):
-        self._task = None
+        # Only unset if the task was not replaced in the meantime (reschedule)
+        if self._task is task:
+            self._task = None
